@@ -24,7 +24,7 @@ ASSUMPTIONS = ['pysam VariantFile / tabix are trusted', 'truth is only demanded 
                'positions >= 0 are queried (position -1 is an internal sentinel)']
 MIN_NONTRIVIAL = {'quick': 1500, 'thorough': 100000}
 REQUIRED_MONITORS = ['ret:getAllelesAt', 'ret:has_location', 'mode:eager', 'mode:lazy', 'mode:cache_write', 'mode:cache_read',
-                     'mode:cache_flag_without_lazy', 'history:cache_from_other_config', 'history:cache_from_other_sample_selection', 'config:empty_sample_selection', 'config:cache_name_over_255_bytes', 'oracle:clean_sites', 'evicted_contig_revisited', 'tagger:runs', 'oracle:DA_compared', 'fault:cache_close_failures']
+                     'mode:cache_flag_without_lazy', 'history:cache_from_other_config', 'history:cache_from_other_sample_selection', 'config:empty_sample_selection', 'config:cache_name_over_255_bytes', 'oracle:clean_sites', 'evicted_contig_revisited', 'tagger:runs', 'oracle:DA_compared', 'fault:cache_close_failures', 'query:contig_listed_by_other_variant_files_only']
 SHARD_TIMEOUT = {'quick': 600, 'thorough': 3600}
 
 
@@ -265,6 +265,11 @@ def run_case(case):
         for c in contigs:
             qs.append((c, r.randint(0, 900), r.choice('ACGT')))
         qs.append(('chrAbsent', 5, 'A'))
+        # reads of contigs that THIS variant file does not list (but another run's file in the same process may): nothing to answer here
+        for other in ('chr1', 'chr2', 'chr3', 'chr4'):
+            if other not in contigs:
+                qs.append((other, r.randint(0, 60), r.choice('ACGT')))
+                acc.count('query:contig_listed_by_other_variant_files_only')
         # contig access order with returns to evicted contigs
         by_contig = {}
         for q in qs:
@@ -424,7 +429,7 @@ def run_case(case):
                         mech = 'modes-disagree:' + label.split('/')[0]
                     acc.violate(mech, f'getAllelesAt{q}: {label} -> {sorted(ans[q][0])} but eager -> {sorted(ref[q][0])} ({cfg})', dict(wit, query=q, mode=label))
                 if ans[q][1] != ref[q][1]:
-                    mech = 'has_location-true-for-absent-contig' if q[0] == 'chrAbsent' else (
+                    mech = 'has_location-true-for-absent-contig' if q[0] not in contigs else (
                         'use_cache-without-lazyLoad-never-loads' if label.startswith('cache_flag_without_lazy') else
                         'cache-reused-across-configurations' if label.startswith('history') else 'has_location-modes-disagree:' + label.split('/')[0])
                     acc.violate(mech, f'has_location{q[:2]}: {label} -> {ans[q][1]} but eager -> {ref[q][1]} ({cfg})', dict(wit, query=q, mode=label))
